@@ -260,6 +260,7 @@ also("C14", "(R-STALE-READ) no field of the readers is read into a kept value ri
 # ---- eighth round (slips in refactored code)
 also("C01", "The helper that unlinks the in-order successor hands back a node whose small-side child is nil by a dominating branch fact (it is the minimum).")
 also("C04", "R-OK-FORWARD also reports an accessor that returns a lookup's value with the negation of that lookup's ok.")
+also("C10", "(R-REVERSE-COPY) in Stack.Slice the copy out[A] = list[B] keeps A + B = len(list) − 1 in every round of its loop, and the rounds are 0 … len − 1.")
 also("C10", "(R-DETACH-OLD-LINKS) in ring.Pop the receiver's links are read before they are overwritten (directly or through a link helper).")
 also("C13", "(R-BOUND-SIDE) where two sibling fields are indexed in one block and one index is tested against 0, the other is too.")
 also("C18", "A count handed to an unexported helper that answers at once for count 0 is zero only for an empty collection (len(x) or min(len(x), k), never len(x) - k).")
